@@ -227,6 +227,18 @@ class Interp:
             if a.name == "floor":
                 import math
                 return Fraction(math.floor(args[0]))
+            if a.name == "sqrt" and args[0] >= 0:
+                # exact for perfect squares (so that sqrt(x) == 0 iff x == 0), a close rational otherwise (used for sign decisions only)
+                import math
+                c = Fraction(args[0])
+                rn, rd = math.isqrt(c.numerator), math.isqrt(c.denominator)
+                if rn * rn == c.numerator and rd * rd == c.denominator:
+                    return Fraction(rn, rd)
+                return Fraction(math.sqrt(float(c)))
+            if a.name == "pow" and args[0] > 0:
+                if args[1].denominator == 1 and abs(args[1]) <= 64:
+                    return Fraction(args[0]) ** int(args[1])
+                return Fraction(float(args[0]) ** float(args[1]))
         raise KeyError(a)
 
     def numeric(self, r, sample: dict = None) -> Fraction:
